@@ -440,6 +440,34 @@ theorem in_double_self (f : Float) (h : (f == f) = false) :
   have := in_singleton_self (.dbl f) rfl
   simpa [eq3, veq, h] using this
 
+/-! ## round 3 — selection paths; strings are sequences of code points -/
+
+/-- `has(a.f₁.f₂)`: the field looked for is the LAST one, in the value of the whole operand chain `a.f₁` — whether
+`f₁` or `f₂` are keys of the outer map `a` plays no role (both runners, any operand expression `a`) -/
+theorem has_path_last (env : Env) (a : E) (f₁ f₂ : List Nat) (kvs₀ kvs₁ : List (V × V)) (o : Option V)
+    (ha : ∀ r, ev r env a = .ok (.map kvs₀)) (h₁ : lookup (.str f₁) kvs₀ = .ok (some (.map kvs₁)))
+    (h₂ : lookup (.str f₂) kvs₁ = .ok o) (hv : ∀ v, o = some v → v.isErr = false) :
+    ev .I env (.has (.sel a f₁) f₂) = .ok (.bool o.isSome) ∧
+    ev .C env (.has (.sel a f₁) f₂) = .ok (.pybool o.isSome) :=
+  has_iff_key env (.sel a f₁) f₂ kvs₁ o
+    (fun r => present_field_run r env a f₁ kvs₀ (.map kvs₁) (ha r) h₁) h₂ hv
+
+/-- … in particular a last field that is absent from `a.f₁` gives `false` even when the outer map has it -/
+theorem has_path_absent (env : Env) (a : E) (f₁ f₂ : List Nat) (kvs₀ kvs₁ : List (V × V))
+    (ha : ∀ r, ev r env a = .ok (.map kvs₀)) (h₁ : lookup (.str f₁) kvs₀ = .ok (some (.map kvs₁)))
+    (h₂ : lookup (.str f₂) kvs₁ = .ok none) :
+    ev .I env (.has (.sel a f₁) f₂) = .ok (.bool false) ∧
+    ev .C env (.has (.sel a f₁) f₂) = .ok (.pybool false) := by
+  simpa using has_path_last env a f₁ f₂ kvs₀ kvs₁ none ha h₁ h₂ (fun v hv => by cases hv)
+
+/-- two strings are equal exactly when their code point sequences are (no normalisation, no folding) -/
+theorem str_eq_codepoints (s t : List Nat) : veq (.str s) (.str t) = .ok true ↔ s = t := by
+  simp [veq]
+
+/-- `s + t` is the concatenation of the code point sequences: nothing happens at the seam -/
+theorem str_concat_codepoints (s t : List Nat) : arith .add (.str s) (.str t) = .ok (.str (s ++ t)) := by
+  simp [arith]
+
 /-! ## non-vacuity: the hypotheses above are satisfiable, and the error cases do occur -/
 
 example : run .I (.index (.listLit [.lit (.int 1)]) (.lit (.int (-1)))) = "err" := by decide
@@ -459,5 +487,9 @@ example : runWith .I [(1, .lit (.int 100))]
     (.macro .map (.listLit [.lit (.int 1), .lit (.int 2)]) 1 (.bin .add (.var 1) (.lit (.int 1)))) = "L[i2,i3]" := by decide
 example : run .I (.macro .map (.listLit [.lit (.int 1), .lit (.int 2)]) 1
     (.macro .map (.listLit [.lit (.int 10), .lit (.int 20)]) 1 (.var 1))) = "L[L[i10,i20],L[i10,i20]]" := by decide
+example : run .I (.has (.sel (.mapLit [.lit (.str [97]), .mapLit [.lit (.str [98]), .lit (.int 1)]]) [97]) [99]) = "bF" := by decide
+example : run .I (.has (.sel (.mapLit [.lit (.str [97]), .mapLit [.lit (.str [98]), .lit (.int 1)]]) [97]) [98]) = "bT" := by decide
+example : run .I (.size (.bin .add (.lit (.str [101])) (.lit (.str [769])))) = "i2" := by decide
+example : run .C (.bin .eq (.lit (.str [101, 769])) (.lit (.str [233]))) = "bF" := by decide
 
 end Cel.Props.C09
